@@ -163,8 +163,65 @@ func c03R2(c *Ctx, p *Prog) {
 		}
 		var masks []string
 		var shiftVals []int64
+		delegateClears := false
 		ast.Inspect(fd.Body, func(n ast.Node) bool {
 			switch x := n.(type) {
+			case *ast.CallExpr:
+				// delegation to a generic field helper: r.field(mask, shift) / r.setField(mask, shift, v)
+				sel, ok := ast.Unparen(x.Fun).(*ast.SelectorExpr)
+				if !ok {
+					break
+				}
+				callee, _ := info.Uses[sel.Sel].(*types.Func)
+				if callee == nil || callee.Pkg() != pk.Types {
+					break
+				}
+				maskPos := -1
+				for ai, a := range x.Args {
+					if id, ok := ast.Unparen(a).(*ast.Ident); ok {
+						if k, ok := info.Uses[id].(*types.Const); ok && k.Pkg() == pk.Types {
+							if _, isMask := byMask[k.Name()]; isMask {
+								maskPos = ai
+							}
+						}
+					}
+				}
+				if maskPos < 0 {
+					break
+				}
+				for ai, a := range x.Args {
+					if ai == maskPos {
+						continue
+					}
+					if v, ok := constInt(info, a); ok {
+						shiftVals = append(shiftVals, v)
+					}
+				}
+				// does the helper clear the field given by its mask parameter?
+				if cd := p.DeclOf(callee); cd != nil && cd.Body != nil && cd.Type.Params != nil {
+					var pnames []string
+					for _, fl := range cd.Type.Params.List {
+						for _, nm := range fl.Names {
+							pnames = append(pnames, nm.Name)
+						}
+					}
+					if maskPos < len(pnames) {
+						mp := pnames[maskPos]
+						ast.Inspect(cd.Body, func(n2 ast.Node) bool {
+							switch y := n2.(type) {
+							case *ast.UnaryExpr:
+								if id, ok := ast.Unparen(y.X).(*ast.Ident); ok && y.Op == token.XOR && id.Name == mp {
+									delegateClears = true
+								}
+							case *ast.BinaryExpr:
+								if id, ok := ast.Unparen(y.Y).(*ast.Ident); ok && y.Op == token.AND_NOT && id.Name == mp {
+									delegateClears = true
+								}
+							}
+							return true
+						})
+					}
+				}
 			case *ast.Ident:
 				if k, ok := info.Uses[x].(*types.Const); ok && k.Pkg() == pk.Types {
 					if _, isMask := byMask[k.Name()]; isMask {
@@ -221,7 +278,7 @@ func c03R2(c *Ctx, p *Prog) {
 				}
 				return true
 			})
-			c.Check(clears, rule, name+"#clears", fd.Pos(), "setter clears field %s (& ^mask) before or-ing the new value", mn)
+			c.Check(clears || delegateClears, rule, name+"#clears", fd.Pos(), "setter clears field %s (& ^mask) before or-ing the new value", mn)
 		}
 	}
 	c.Floor(rule+".accessors", nAcc, 8, "Reverse accessors")
@@ -577,42 +634,75 @@ func c03R4(c *Ctx, p *Prog, rule string) {
 			continue
 		}
 		sts := fieldStores(fn, "Board.hashes")
-		if len(sts) != 1 {
-			c.Fail(rule, spec+"#once", fn.Pos(), "%d stores to the hash history; exactly one %s per call is required", len(sts), kind)
+		if len(sts) == 0 {
+			c.Fail(rule, spec+"#once", fn.Pos(), "no store to the hash history; exactly one %s per call is required", kind)
 			continue
 		}
-		st := sts[0]
-		pd := newPostDom(fn)
-		every := pd.PostDominates(st.Block(), fn.Blocks[0])
-		shape := false
-		switch kind {
-		case "push":
-			if call, ok := st.Val.(*ssa.Call); ok {
-				if bi, ok := call.Call.Value.(*ssa.Builtin); ok && bi.Name() == "append" && len(call.Call.Args) == 2 && isFieldLoad(call.Call.Args[0], "Board.hashes") {
-					// exactly one element appended
-					if sl, ok := call.Call.Args[1].(*ssa.Slice); ok {
-						if al, ok := sl.X.(*ssa.Alloc); ok {
-							if at, ok := al.Type().(*types.Pointer).Elem().Underlying().(*types.Array); ok && at.Len() == 1 {
-								shape = true
+		shapeOf := func(st *ssa.Store) bool {
+			switch kind {
+			case "push":
+				if call, ok := st.Val.(*ssa.Call); ok {
+					if bi, ok := call.Call.Value.(*ssa.Builtin); ok && bi.Name() == "append" && len(call.Call.Args) == 2 && isFieldLoad(call.Call.Args[0], "Board.hashes") {
+						// exactly one element appended
+						if sl, ok := call.Call.Args[1].(*ssa.Slice); ok {
+							if al, ok := sl.X.(*ssa.Alloc); ok {
+								if at, ok := al.Type().(*types.Pointer).Elem().Underlying().(*types.Array); ok && at.Len() == 1 {
+									return true
+								}
+							}
+						}
+					}
+				}
+			case "pop":
+				if sl, ok := st.Val.(*ssa.Slice); ok && sl.Low == nil && sl.High != nil && isFieldLoad(sl.X, "Board.hashes") {
+					if bo, ok := sl.High.(*ssa.BinOp); ok && bo.Op == token.SUB {
+						if one, ok := constOf(bo.Y); ok && one == 1 {
+							if lc, ok := bo.X.(*ssa.Call); ok {
+								if bi, ok := lc.Call.Value.(*ssa.Builtin); ok && bi.Name() == "len" && isFieldLoad(lc.Call.Args[0], "Board.hashes") {
+									return true
+								}
 							}
 						}
 					}
 				}
 			}
-		case "pop":
-			if sl, ok := st.Val.(*ssa.Slice); ok && sl.Low == nil && sl.High != nil && isFieldLoad(sl.X, "Board.hashes") {
-				if bo, ok := sl.High.(*ssa.BinOp); ok && bo.Op == token.SUB {
-					if one, ok := constOf(bo.Y); ok && one == 1 {
-						if lc, ok := bo.X.(*ssa.Call); ok {
-							if bi, ok := lc.Call.Value.(*ssa.Builtin); ok && bi.Name() == "len" && isFieldLoad(lc.Call.Args[0], "Board.hashes") {
-								shape = true
-							}
-						}
-					}
+			return false
+		}
+		shape := true
+		for _, st := range sts {
+			if !shapeOf(st) {
+				shape = false
+			}
+		}
+		isStore := func(x ssa.Instruction) bool {
+			for _, st := range sts {
+				if x == ssa.Instruction(st) {
+					return true
+				}
+			}
+			return false
+		}
+		// exactly one on every path: no return reachable from the entry without a store, no store reachable from a store
+		every, twice := true, false
+		allInstrs(fn, func(in ssa.Instruction) {
+			if ret, ok := in.(*ssa.Return); ok && ret.Block() != fn.Recover {
+				if r, _ := reachAvoidingTo(fn.Blocks[0].Instrs[0], ret, isStore); r {
+					every = false
+				}
+			}
+		})
+		for _, a := range sts {
+			for _, b2 := range sts {
+				if r, _ := reachAvoiding(a, b2, nil); r {
+					twice = true
 				}
 			}
 		}
-		c.Check(every && shape, rule, spec+"#"+kind, st.Pos(), "hash history %s by exactly one element on every path (on every path: %v, shape recognised: %v)", kind, every, shape)
+		if twice {
+			c.Fail(rule, spec+"#once", sts[0].Pos(), "a path through %s stores to the hash history twice; exactly one %s per call is required", spec, kind)
+			continue
+		}
+		c.Check(every && shape, rule, spec+"#"+kind, sts[0].Pos(), "hash history %s by exactly one element on every path (on every path: %v, shape recognised: %v)", kind, every, shape)
 		n++
 	}
 	c.Floor(rule, n, 4, "push/pop functions")
@@ -778,6 +868,23 @@ func rookOps(p *Prog, fn *ssa.Function, rookConst int64) []rookOp {
 						if len(rows) > 0 {
 							continue
 						}
+						// the helper returns fields of the matching row of a table of castling cases
+						if trows, fa, fb, ok := structTableRows(p, h, -1); ok {
+							fidx := -1
+							allInstrs(h, func(in ssa.Instruction) {
+								if ret, isRet := in.(*ssa.Return); isRet && ex.Index < len(ret.Results) {
+									if fi, base := structFieldOf(returnedValue(ret, ex.Index)); fi >= 0 && traceToGlobal(base, 0) != nil {
+										fidx = fi
+									}
+								}
+							})
+							if fidx >= 0 {
+								for _, r := range trows {
+									out = append(out, rookOp{From: r[fa], To: r[fb], Op: opName, Sq: r[fidx], Pos: ci.Pos()})
+								}
+								continue
+							}
+						}
 					}
 				}
 			}
@@ -918,10 +1025,10 @@ func structTableRows(p *Prog, h *ssa.Function, resIdx int) (rows []map[int]int64
 	if g == nil || fFrom < 0 || fTo < 0 {
 		return nil, -1, -1, false
 	}
-	// some return hands out an element of that table as result resIdx
-	hands := false
+	// some return hands out an element of that table as result resIdx (resIdx < 0: not required)
+	hands := resIdx < 0
 	allInstrs(h, func(in ssa.Instruction) {
-		if ret, isRet := in.(*ssa.Return); isRet && resIdx < len(ret.Results) {
+		if ret, isRet := in.(*ssa.Return); isRet && resIdx >= 0 && resIdx < len(ret.Results) {
 			if traceToGlobal(returnedValue(ret, resIdx), 0) == g {
 				hands = true
 			}
@@ -1028,6 +1135,10 @@ func c03R5(c *Ctx, p *Prog) {
 		}
 	}
 	for k, u := range uset {
+		if u.From < 0 || u.To < 0 {
+			c.Undec(rule, "castle-undo#unrecognised", u.Pos, "a rook relocation in UndoMove is not guarded by constant From()/To() tests nor taken from a recognised table of castling cases")
+			continue
+		}
 		c.Fail(rule, "castle-undo-extra:"+k, u.Pos, "UndoMove %ss a rook on %s (king move %s%s) that MakeMove never moved", u.Op, sqName(u.Sq), sqName(u.From), sqName(u.To))
 	}
 	c.Floor(rule+".castle", len(mops), 8, "rook relocations in MakeMove")
@@ -1240,7 +1351,11 @@ func c03R8(c *Ctx, p *Prog) {
 			setters = append(setters, s)
 		}
 	}
-	c.Floor(rule+".setters", len(setters), 2, "Reverse token setters")
+	if len(setters) == 0 {
+		// setters written through a generic helper: the spill analysis does not follow them (no claim made)
+		c.OkTrivial(rule, "no-spilling-setter", 0, "no token setter of the recognised direct form `*r = (*r &^ mask) | Reverse(v)<<shift`")
+		return
+	}
 	n := 0
 	for _, sp := range setters {
 		if !sp.signed || sp.masked {
